@@ -1,10 +1,12 @@
 """C07 — split, join, cast and rounding."""
 from . import suite, execsuite, values
 from .propbase import *
+from . import basesuites
 
 
 def run(chk):
     proved = setup(chk, "C07")
+    basesuites.run_f64(chk, 1500 if chk.tier == "quick" else 20000)
     rng = rng_for(chk, 7)
     quick = chk.tier == "quick"
     U = values.universe(small=False)
